@@ -357,6 +357,20 @@ Interpolation_2D::Interpolation_2D()
 Interpolation_2D::Interpolation_2D(std::vector<double> x_val, std::vector<double> y_val, std::vector<std::vector<double>> func_values, double x_dim, double y_dim, double f_dim)
 : N_x(x_val.size()), N_y(y_val.size()), x_values(x_val), y_values(y_val), function_values(func_values), prefactor(1.0)
 {
+	// Check the shape of the function table
+	if(function_values.size() != N_x)
+	{
+		std::cerr << "Error in libphysica::Interpolation_2D::Interpolation_2D(): The function table has " << function_values.size() << " rows, but there are " << N_x << " x values." << std::endl;
+		std::exit(EXIT_FAILURE);
+	}
+	for(unsigned int i = 0; i < N_x; i++)
+	{
+		if(function_values[i].size() != N_y)
+		{
+			std::cerr << "Error in libphysica::Interpolation_2D::Interpolation_2D(): Row " << i << " of the function table has " << function_values[i].size() << " entries, but there are " << N_y << " y values." << std::endl;
+			std::exit(EXIT_FAILURE);
+		}
+	}
 	// Transform units
 	if(x_dim > 0.0)
 		for(unsigned int i = 0; i < N_x; i++)
